@@ -5,21 +5,22 @@ RULE = ("every case drives the REAL ExecutionBuilder: a list of instrument defin
         "exchanges with exchange names that differ per exchange (12 % of the cases violate `internal name determines exchange name`), instrument exchange names unique per exchange "
         "except in 20 % of the cases where they come from a pool of 2 and collide inside an exchange; 15 % with a repeated definition) is indexed by the real IndexedInstruments::new; "
         "12 % of the cases then tamper with the collection through its derived Deserialize (asset key, base / quote / quantity-unit asset index of an instrument, exchange id of an "
-        "instrument: collections the builder cannot produce, model vs code only); then per round (15 % two rounds) for every indexed exchange in shuffled order add_mock (70 %: latency in "
-        "{0,10,100,101} ms, fee in {0,0.001,0.01,0.1,0.25}, one balance per asset exchange name of that exchange in shuffled order with pairwise different amounts; 8 % spoiled: a balance "
+        "instrument: collections the builder cannot produce, model vs code only); then per round (15 % two rounds) for every indexed exchange in shuffled order add_mock (70 %: latency 80 % in "
+        "{0,10,100,101} ms, 6 % 999 ms, 14 % in {1000,1001,2500,5000} ms - at or beyond the manager's hard-coded 1 s request timeout -, fee in {0,0.001,0.01,0.1,0.25}, one balance per asset exchange name of that exchange in shuffled order with pairwise different amounts; 8 % spoiled: a balance "
         "missing, or a balance for a name the exchange has no asset for), add_live of a recording stub client (20 %) or nothing (10 %), 6 % an extra add for an absent or repeated exchange; "
         "`build`: ExecutionBuilder::new, the adds in order (panics caught and classified by their message), build(), init() on a current-thread tokio runtime with paused clock, "
-        "the runtime then runs to quiescence (virtual 3 s) after every operation and stays alive for the rest of the case; then 2-9 / 2-14 open requests sent through the REAL Engine::send_request "
+        "the runtime then runs to quiescence (3 virtual seconds beyond the largest configured latency) after every operation and stays alive for the rest of the case; then 2-9 / 2-14 open requests sent through the REAL Engine::send_request "
         "(engine/action/send_requests.rs; the engine owns the builder's transmitter table): exchange index 0..len (5 % out of range), 85 % an instrument of that exchange else any index 0..=len, buy / sell, market "
         "92 % / limit, price in {0.5,1,2,3,10}, quantity in {0,0.5,1,2,7,50,1000,-1}. Observed per op: result class of build (panic kind / asset with the position of the failing add, "
         "Err index / duplicate with position, build panic, init error, ok), the slots of the MultiExchangeTxMap, the three lengths of ExecutionHandles, the indexed initial account snapshot "
         "of every link (asset index : amount); per request: no transmitter / channel closed / manager panicked / live stub called with (exchange id, instrument name) / mock, and everything "
-        "that arrived on the merged account channel: order snapshot (exchange index, instrument index, filled / active / rejected / insufficient <asset index> / offline), balance snapshot "
+        "that arrived on the merged account channel: order snapshot (exchange index, instrument index, filled / active / rejected / insufficient <asset index> / offline / timeout = the manager's own OpenFailed(Connectivity(Timeout))), balance snapshot "
         "(asset index, total, free), trade (instrument index, side, price, quantity, fees). Thorough additionally enumerates every set of <= 3 definitions out of a universe of 10 (two "
         "exchanges x {three spot instruments over three assets, two of them sharing an exchange name, one with an asset-unit spec; one perpetual}) with a mock per exchange and a buy + sell of "
         "every (exchange index, instrument index) pair incl. one out of range (175 cases), and every single tamper op over small ranges on a fixed three-instrument collection (93 cases). "
-        "7 committed corpus cases (corpus/C04M) pin the edge behaviours (name collision: last wins; unsupported kind only on the own exchange; dangling base / unit / re-keyed asset; absent and "
-        "duplicate exchange; missing balance kills the exchange task; stray balance fails init; two exchanges mock + mock). A case is distinct by the SHA-1 of its op lines and non-trivial "
+        "16 committed corpus cases (corpus/C04M) pin the edge behaviours (A1: name collision: last wins; unsupported kind only on the own exchange; dangling base / unit / re-keyed asset; absent and "
+        "duplicate exchange; missing balance kills the exchange task; stray balance fails init; two exchanges mock + mock. A2, theorem review: latency 1000 / 2500 / 5000 ms = order executed, engine told `timeout`; 999 ms heard; "
+        "a dead exchange answers `offline` at once; definitions violating WFAssets; two links interleaved with a foreign and an out-of-range request). A case is distinct by the SHA-1 of its op lines and non-trivial "
         "when the implementation's observation blocks differ at least once")
 ASSUMPTIONS = [
     "generate_mock_exchange_instruments is private and its result is moved into a boxed future: it is observed only through behaviour - which names the mock exchange knows (never "
@@ -32,15 +33,22 @@ ASSUMPTIONS = [
     "exact rational arithmetic, rounding / overflow of Decimal not modelled; initial balances have total = free and pairwise distinct names (the ops are rejected otherwise: the code's map would keep the last one); "
     "orders of the initial state are C08C and not part of this model",
     "the ExecutionInstrumentMap, the transmitter table and the engine's routing are the C04 model (imported, `toColl` projects the C11 collection onto it); the collection and its builder are the C11 model",
-    "hypotheses of the theorems about builder output: C11 `WFAssets` (within an exchange an asset's internal name determines the asset) where asset NAMES are compared with definitions; "
+    "hypotheses of the theorems about builder output: C11 `WFAssets` (within an exchange an asset's internal name determines the asset) ONLY where table entries are compared with definitions "
+    "(round_trip, refines_definition_spec) - every index-level theorem does without it since theorem review A (`ViewHypW`; witness view_hypotheses_without_wf_assets_witness); "
     "`UniqueNames defs ex` / `UniqueAssetNames defs ex` (on the mocked exchange an instrument's / asset's exchange name determines it) wherever a name has to be translated back to an index; "
     "at the excluded points the code keeps the LAST instrument of a name in the table and in the manager's name->index map (modelled, theorem collision_last_wins, corpus case, compared with the "
     "code; the specification is silent): an order for the earlier instrument is then executed against the later one's assets and reported under the later one's index",
-    "engine-view refinement (`ViewHyp`): additionally the configured balance names are exactly the asset exchange names of the mocked exchange (a missing one makes open_order panic and the task "
+    "engine-view refinement (`ViewHypW`): additionally the configured balance names are exactly the asset exchange names of the mocked exchange (a missing one makes open_order panic and the task "
     "die - modelled, theorem configured_balances_keep_it_alive, compared; a stray one makes ExecutionBuild::init fail - modelled, compared; the specification is silent in both cases)",
-    "scheduling: an operation is followed by the runtime running to quiescence under a paused clock (3 virtual seconds; latency <= 101 ms, the manager's request timeout is 1 s), one request in flight at a "
-    "time; the client clock is a fixed instant; exchange time stamps are not compared; Reconnecting events of the account stream of a dead mock exchange (property C12) are ignored; "
+    "scheduling: an operation is followed by the runtime running to quiescence under a paused clock (3 virtual seconds beyond the largest configured latency), one request in flight at a time; "
+    "the manager's request timeout on a mock link is the constant 1 s of builder.rs:97 (`mockRequestTimeoutMs`), modelled: with latency_ms >= 1000 the engine is handed the manager's own "
+    "OpenFailed(Timeout) under the request's key although the exchange has executed the order and the notifications arrive (theorems timeout_iff, timeout_hides_an_executed_order_witness). AT the threshold "
+    "(exactly 1000 ms) both timers expire in the same tick and the outcome is decided by the poll order of the runtime: on the paused current-thread clock of the harness the timeout wins "
+    "(deterministic, compared; in real time the manager's timer is the older one); a dead exchange task answers `offline` at once; the request timeout of a LIVE link is a parameter of add_live "
+    "(the stub answers at once; not modelled); the client clock is a fixed instant; exchange time stamps are not compared; Reconnecting events of the account stream of a dead mock exchange (property C12) are ignored; "
     "the live client is a recording stub that rejects every order",
+    "the `instrumentInvalid` arm of the model's `mockOpen` (no order snapshot) is unreachable for every collection with key = position (theorem manager_names_known: a name the manager can send is a key of "
+    "the table); outside that the code would index the name and emit a snapshot - never generated, never compared",
     "tracing output, serde / derive impls, AsyncShutdown / IntoIterator of ExecutionHandles (chaining three vectors) are not modelled",
 ]
 SOURCE_FILES = ["barter/src/execution/builder.rs", "barter-execution/src/exchange/mock/mod.rs", "barter-execution/src/exchange/mock/account.rs",
@@ -63,32 +71,53 @@ TECHNIQUE = ("Lean 4: the filter_map + collect of generate_mock_exchange_instrum
              "references resolve), giving a refinement to a definition-level specification without indices; projection of the C11 collection onto the C04 collection with proofs that C04's hypotheses "
              "hold; ExecutionBuilder as a fold with an invariant over arbitrary add sequences; the running system as a transition system with an invariant kept by every request; the mock exchange = "
              "C08 run (history variable), and a renaming lemma for the C08 history-only specification (instrument positions -> instrument indices, balance positions -> asset indices) that turns C08's "
-             "refinement into a refinement to the C08 specification over ENGINE indices, by induction over whole request histories; correspondence of model and specification with the real "
+             "refinement into a refinement to the C08 specification over ENGINE indices, by induction over whole request histories; COMPOSITION of that isolated-task refinement with the running system: a per-link invariant over the parts of the state no request changes "
+             "(transmitter slot, manager skeleton, channel pair) + frame lemmas (a request for another exchange index changes neither this link's manager nor its mock task) give, by induction over "
+             "arbitrary interleaved histories, `task of link x in the built system = isolated run on the requests routed to x`; the manager's request timeout as a layer over the response; correspondence of model and specification with the real "
              "ExecutionBuilder / ExecutionManager / MockExecution / MockExchange under a paused tokio clock")
-LEVEL_TEXT = ("Proof (sub-check of C04). lean/BarterModel/Props/C04M.lean, 26 theorems, all for arbitrary collections / add sequences / request histories, none `_partial`. "
+LEVEL_TEXT = ("Proof (sub-check of C04). lean/BarterModel/Props/C04M.lean, 44 theorems, all for arbitrary collections / add sequences / request histories, none `_partial`. "
               "A. TABLE, for every IndexedInstruments (also ones the builder cannot produce) and every exchange id: lookup_refines_spec (find_instrument_data = the instrument of that exchange with that "
               "exchange name in the exchange's vocabulary, nothing else), keys_exact (keys = exchange names of exactly the instruments whose exchange.value is the mocked id: none missing, none foreign), "
               "keys_once, entry_sound (keyed by its own name_exchange, exchange id, Spot, native form of an instrument of that exchange), fields_carried_over (names / quote marker unchanged, base / "
               "quote / quantity-unit asset = exchange name of the asset entry with that KEY, price / quantity / notional numbers unchanged, Contract / Quote unchanged, spec absent iff absent), "
-              "complete_when_names_unique (+ size), collision_last_wins (shared name_exchange: the LAST instrument in index order is kept, the earlier unreachable), sets_up_iff (succeeds iff every own "
+              "complete_when_names_unique (+ size), collision_last_wins (shared name_exchange: the table ENTRY is the LAST instrument in index order, the earlier unreachable; that an order for the earlier one is "
+              "then reported under the later index and debits the later one's asset is pinned by a corpus case only), sets_up_iff (succeeds iff every own "
               "instrument is spot with resolvable asset keys; other exchanges' instruments are never looked at), panic_is_first_offender (reason = defect of the first offending own instrument; kind is "
               "checked before assets). B. BUILDER OUTPUT (C11 model): builder_never_dangling (find_asset(..).unwrap() cannot fail, no hypothesis), sets_up_iff_all_spot (+ `does not support` otherwise, "
               "empty table for an exchange without definitions), round_trip (WFAssets: every entry = a definition of that exchange with its assets replaced by their exchange names - C11 "
-              "references_resolve read backwards - and every definition's name is a key), refines_definition_spec (unique names: lookup = `specFind` over the DEFINITIONS, indices gone). "
+              "references_resolve read backwards - and every definition's name is a key), refines_definition_spec (WFAssets + unique names: lookup = `specFind` over the DEFINITIONS, indices gone). "
               "C. WITH C04: c04_hypotheses_hold (WFX always, WF under unique names: all of Props/C04 applies), manager_names_known (every name the manager can send is a key: no InstrumentInvalid), "
-              "same_instrument_same_assets (index -> name -> table entry = native form of that instrument; entry's base / quote NAMES -> the instrument's own base / quote asset INDICES on the same link; "
-              "name -> index). D. BUILDER: add_mock_panics_first, unknown_exchange_is_err_not_panic, transmitter_table_is_C04 (mock or live: same addExecutions / buildExecution), spawned_per_exchange "
-              "(#mock, #adds, #adds), mock_client_shares_channels_with_own_exchange (channel pairs distinct; each mock client <-> exactly one MockExchange, same exchange id, the table generated for it; "
+              "same_instrument_same_assets (NO WFAssets: index -> name -> table entry = native form of that instrument; entry's base / quote NAMES -> the instrument's own base / quote asset INDICES on the same link; "
+              "name -> index). D. BUILDER: add_mock_panics_first, unknown_exchange_is_err_not_panic, duplicate_exchange_is_err, transmitter_table_is_C04 (mock or live: same addExecutions / buildExecution), "
+              "spawned_per_exchange (#mock, #adds, #adds), mock_client_shares_channels_with_own_exchange (channel pairs distinct; each mock client <-> exactly one MockExchange, same exchange id, the table generated for it; "
               "exchanges pairwise distinct). E. RUNNING SYSTEM: invariant_of_every_reachable_state (after build+init and ANY request history incl. killed managers / exchanges), "
-              "same_assets_for_every_order (a request for (exchange index x, instrument index i) that reaches a mock: i belongs to that exchange; the order snapshot comes back under (x, i); the balance "
+              "same_assets_for_every_order (no WFAssets; a request for (exchange index x, instrument index i) that reaches a mock: i belongs to that exchange; the order snapshot comes back under (x, i); the balance "
               "that moves - or is reported insufficient - is the instrument's own QUOTE asset index for a buy, BASE for a sell; the trade is on instrument index i with the requested side / price / "
-              "quantity: C02's position index and C09's balance indices are the ones C08's ledger debits), ledger_is_C08 (the task's ledger = MockExchange.run from `toCfg` on the requests seen: all of "
-              "Props/C08 applies), configured_balances_keep_it_alive (wf iff every table name has a balance; all assets configured => wf; then no request kills the task), reject_outcome_refines_view (an order that is not filled comes back under its own key with `rejected` for a non-market order, else `insufficient <the asset INDEX it would have spent>`: spec key `order` also when no fill is prescribed), init_snapshot_refines_view (the indexed initial account snapshot is, for every asset index of the exchange, the configured amount: spec key `snap<x>`), manager_request_addressed (the client of a live link too is addressed with exchange id + instrument exchange name, or the manager refuses: spec key `r live`), engine_view_refinement (whole "
-              "histories: observations = the C08 SPECIFICATION exchange over engine indices - asset index, amount, fill - nothing when it prescribes nothing; names and positions gone). Non-vacuity "
-              "examples incl. an evaluated end-to-end pipeline and a witness of `ViewHyp`. Tied to the code on every run by executing the same operations against the real code.")
-LEVEL_NOTE = ("Trusted: Lean kernel; axioms propext/Classical.choice/Quot.sound only; the hand-written model (sampled correspondence: 600 quick / 15 000 random + 175 + 93 enumerated + 7 corpus cases thorough; "
-              "7 hand mutants of generate_mock_exchange_instruments - base/quote swapped, filter inverted / removed, keyed by name_internal, non-spot accepted, first-wins collect, unit looked up via "
-              "base - are all flagged: five with a concrete failing input, first-wins and the unit lookup as correspondence breaks because the specification is silent there); harness (panic "
-              "classification by message, quiescence by virtual sleep) and driver. The table generator is private: entry fields the exchange never reads are modelled from the source but not observed. "
-              "Hypotheses: C11 WFAssets; unique instrument / asset exchange names on the mocked exchange; for the engine-view refinement balances exactly for the exchange's assets. Outside: Decimal rounding, "
-              "time stamps, concurrent requests in flight, the reconnect loop after a mock exchange died, AsyncShutdown.")
+              "quantity: C02's position index and C09's balance indices are the ones C08's ledger debits), configured_balances_keep_it_alive (wf iff every table name has a balance; all assets configured => wf; "
+              "then no request kills an isolated task). ISOLATED mock exchange task (`mockRun` of the spawned task on a list of own requests), under `ViewHypW` = builder output, unambiguous instrument / asset names on the "
+              "mocked exchange, balances configured for exactly its assets - WITHOUT C11 WFAssets since theorem review A: engine_view_refinement (whole histories: observations = the C08 SPECIFICATION exchange over "
+              "engine indices - asset index, amount, fill - nothing when it prescribes nothing; names and positions gone), reject_outcome_refines_view (an order that is not filled comes back under its own key with "
+              "`rejected` for a non-market order, else `insufficient <the asset INDEX it would have spent>`), init_snapshot_refines_view (for every asset index of the exchange the configured amount), "
+              "manager_request_addressed (live link too: exchange id + instrument exchange name, or the manager refuses). "
+              "G. COMPOSITION with the built system (theorem review A): built_system_runs_isolated_mocks (builder output, any adds, build + init, ANY history of open requests for any exchange index / instrument index "
+              "incl. ones that kill managers or exchanges on this or another link: the mock exchange task behind exchange index x IS `mockRun` of the spawned task on `routedTo` = the requests addressed to x up to the "
+              "first foreign instrument; its manager runs iff there was none), built_system_order_is_isolated_step (the next request for x: closed / manager panic / the events of `mockOpen` on that isolated run, "
+              "indexed with the manager's map whose exchange key is x), built_system_refines_view (= what the spec driver prints per request: under ViewHypW + no foreign request so far, the ENGINE is handed "
+              "exactly what the index-level C08 specification prescribes over the requests routed to this exchange: spec keys `bal`, `trade`, `order`), built_system_ledger_is_C08 (the ledger inside the built system = "
+              "MockExchange.run from toCfg on the routed requests: all of Props/C08 applies), built_system_mock_never_dies, built_system_init_snapshot (spec key `snap<x>` for buildInit itself), mock_exchange_has_its_link. "
+              "H. REQUEST TIMEOUT (add_mock hard-codes 1 s, builder.rs:97; theorem review A): timeout_leaves_system_state (the timeout undoes nothing at the exchange), timeout_iff (the engine is told `timeout` under the "
+              "REQUEST's key exactly when the task survives the request and the configured latency is >= 1000 ms; balance / trade notifications untouched; below 1000 ms the client's response is seen; a dead task "
+              "answers `offline` at once), witnesses timeout_hides_an_executed_order_witness (latency 1000: funded buy reported `timeout`, asset index 1 debited 100 -> 399/5 -> 298/5 by two such orders, an unfunded "
+              "order `timeout` as well; 999: `filled` / `insufficient`), dead_exchange_answers_at_once_witness, view_hypotheses_without_wf_assets_witness (definitions violating WFAssets for which ViewHypW holds and no "
+              "ViewHyp exists), exII_is_builder_output (the evaluated pipeline examples run on builder output). Definitional / bookkeeping, not results: ledger_is_C08 (one step; `mockOpen` calls MockExchange.step), "
+              "runOrders_eq_runAll, the third component of spawned_per_exchange (= the second by the definition of `handles`). Tied to the code on every run by executing the same operations against the real code.")
+LEVEL_NOTE = ("Trusted: Lean kernel; axioms propext/Classical.choice/Quot.sound only; the hand-written model (sampled correspondence: 600 quick / 15 000 random + 175 + 93 enumerated + 16 corpus cases thorough; "
+              "hand mutants: 7 of generate_mock_exchange_instruments - base/quote swapped, filter inverted / removed, keyed by name_internal, non-spot accepted, first-wins collect, unit looked up via "
+              "base - all flagged when the sub-check was built (five with a concrete failing input, first-wins and the unit lookup as correspondence breaks because the specification is silent there; patches not kept); "
+              "kept under mutants/: C04M_insufficient_names_quote_on_sell, C04M_init_snapshot_drops_first_asset, C04M_mock_request_timeout_2s / _500ms (DUMMY_EXECUTION_REQUEST_TIMEOUT = 2 s / 500 ms: clause=order/op=order_* at latency 1000, 1001 / 999, concrete failing input)); "
+              "harness (panic classification by message, quiescence by virtual sleep) and driver. The table generator is private: entry fields the exchange never reads are modelled from the source but not observed. "
+              "Hypotheses: C11 WFAssets only for the two definition-level theorems; unique instrument / asset exchange names on the mocked exchange; for the engine-view refinement balances exactly for the exchange's "
+              "assets. The spec driver speaks exactly under the hypotheses of built_system_refines_view (its gates `pristine`, `specAdds`, no stray balance, `specCovers`, `silent` are ViewHypW + managerAlive). Spec lines "
+              "with a partial theorem: the order line of a LIVE link (`rejected` is the harness stub's answer; the addressing is manager_request_addressed), `handles` (spawned_per_exchange), `r builderr` / `r panic` "
+              "(specAdds = sets_up_iff_all_spot + unknown_exchange_is_err_not_panic + duplicate_exchange_is_err, composed by the driver, not by a theorem). Outside: Decimal rounding, "
+              "time stamps, concurrent requests in flight, the reconnect loop after a mock exchange died, AsyncShutdown, the request timeout of live links.")
